@@ -595,7 +595,7 @@ theorem clash_error_class (r : Raw) (x : Err) (h : build r = .error x) : x = .ty
 -- non-vacuity: `x + "a"`, `not 1`, `1 = "a"`, `[True to 2]`
 example : HasClash (.bin "+" (.field .this "x") (.lit "\"a\"" (.str "\"a\""))) := by
   simp only [HasClash, RootClash]
-  left; exact ⟨⟨"+", T.NUMBER, T.NUMBER, T.NUMBER, true, true, true⟩, by decide, Or.inr (Or.inl ⟨4, rfl, by decide⟩)⟩
+  left; exact ⟨⟨"+", T.NUMBER, T.NUMBER, T.NUMBER, true, true, true⟩, by decide, Or.inr (Or.inl ⟨T.STRING, rfl, by decide⟩)⟩
 example : build (.bin "+" (.field .this "x") (.lit "\"a\"" (.str "\"a\""))) = .error .type := by rfl
 example : build (.bin "=" (.lit "1" (.int 1)) (.lit "\"a\"" (.str "\"a\""))) = .error .type := by rfl
 
